@@ -1,5 +1,5 @@
 (* Props/C05.v — Renaming never overwrites or loses existing files.  Statements only. *)
-From RN Require Import Base.Bytes Model.Edits Model.Fs Model.ApplyModel Proofs.ApplyP.
+From RN Require Import Base.Bytes Model.Edits Model.Fs Model.ApplyModel Proofs.ApplyP Proofs.RenameP Proofs.RenameP2.
 
 (* whatever the plan, the tree and the fault position: if any planned destination is occupied
    (by a file, a directory - empty or not - or a symlink), apply reports failure, performs no
@@ -18,6 +18,21 @@ Theorem C05_rename_free_keeps_nodes : forall src dst t t',
   lookup t dst = None -> rename_fs src dst t = FOk t' -> map snd t' = map snd t.
 Proof. exact rename_free_keeps_nodes. Qed.
 
+(* no loss: with free destinations every node present before the rename stage is present
+   afterwards, at its planned final path (chains, nesting and any number of renames included) *)
+Theorem C05_no_loss : forall rs t,
+  (forall r, In r rs -> shape r) ->
+  NoDup (map ar_path rs) ->
+  (forall r1 r2, In r1 rs -> In r2 rs -> ar_new r1 = ar_new r2 -> ar_path r1 = ar_path r2) ->
+  fs_ok t rs ->
+  (forall r, In r rs -> case_only (ar_path r) (ar_new r) = false) ->
+  exists s' perf exe,
+    rename_stage no_fault (sort_renames rs) [] [] {| s_fs := t; s_n := 0; s_trace := [] |}
+    = inl (s', perf, exe)
+    /\ forall q n, lookup t q = Some n -> lookup (s_fs s') (final_path rs q) = Some n.
+Proof. exact rename_stage_fs_no_case_only. Qed.
+
+Print Assumptions C05_no_loss.
 Print Assumptions C05_occupied_destination_refused.
 Print Assumptions C05_success_means_destinations_free.
 Print Assumptions C05_rename_free_keeps_nodes.
